@@ -187,9 +187,11 @@ theorem asmStoreWith_expect (s : NvStore) (hwf : WF s) (rec : Store → Except E
   have he : (expectStore s).entries = (table s).map (expectNVar s.pol s.guids) := rfl
   rw [he, asmEntries_expect s.pol hp.pol s.guids rec (table s) hrows]
   simp only [layout, expect_bufs, entriesLen_ser]
-  have h1 : ¬ ((expectStore s).length < 16 * (expectStore s).guidStore.length + entriesLen s.entries) := by
+  have h1 : ¬ ((expectStore s).length < 16 * (expectStore s).guidStore.length) := by
     simp only [expectStore]; omega
-  simp only [h1, if_false]
+  have h1' : ¬ ((expectStore s).length - 16 * (expectStore s).guidStore.length < entriesLen s.entries) := by
+    simp only [expectStore]; omega
+  simp only [h1, h1', if_false]
   have h2 : (expectStore s).length - 16 * (expectStore s).guidStore.length = entriesLen s.entries + s.free := by
     simp only [expectStore]; omega
   have h3 : entriesLen s.entries + s.free - entriesLen s.entries = s.free := by omega
